@@ -7,6 +7,8 @@ From ArmV Require Import Lib.PyZ Lib.Monad Lib.Machine Spec.Pseudocode Spec.Expe
 From Gen Require Import enums bits_ops shift regviews records hubm opsyn core exec.
 Import ListNotations.
 Open Scope Z_scope.
+(* a sentence that runs this long no longer matches the code it was written for: fail instead of searching *)
+Set Default Timeout 240.
 Ltac Zify.zify_post_hook ::= Z.to_euclidean_division_equations.
 
 Lemma lsl1_code x : word x -> lsl x 32 1 = Val ((x * 2) mod 2 ^ 32).
